@@ -161,7 +161,29 @@ const (
 	evCall
 )
 
+// argFact classifies one argument of a call for the shared-object analysis
+type argFact struct {
+	kind  int    // argOther | argFresh | argParam | argNonFresh
+	param int    // for argParam: index of the caller's parameter the argument is rooted at
+	key   string // object location the argument expression passes through ("" if none)
+}
+
+const (
+	argOther = iota
+	argFresh
+	argParam
+	argNonFresh
+)
+
+// mutFact: the function writes through its parameter [param] into object location [key]
+// (key "" = into the parameter itself, a raw map or slice)
+type mutFact struct {
+	param int
+	key   string
+}
+
 type event struct {
+	args    []argFact
 	kind    int
 	field   string
 	write   bool
@@ -172,6 +194,10 @@ type event struct {
 }
 
 type node struct {
+	ftype        *ast.FuncType
+	mut          map[mutFact]bool // direct writes through parameters
+	retFresh     []bool           // per result: every return hands out a private copy (this pass)
+	hasRet       bool
 	returnsField []string // fields of owner types this function returns directly (`return x.f`)
 	file         string
 	line0, line1 int
@@ -196,6 +222,10 @@ type analyzer struct {
 	ifaceCache map[string][]*node
 	unknown    []string
 	fieldKinds map[string]string   // field key -> map | slice | pointer | other
+	summary    map[*node]map[mutFact]bool
+	retFresh   map[*node][]bool // from the previous pass over all functions
+	entryLit   map[*node]bool   // function literals that are entry points (run by another goroutine, not where written)
+	reachMemo  map[string]map[string]bool
 	goConds    map[string][]string // callee key -> canonical conditions of the enclosing ifs of a go statement calling it
 }
 
@@ -245,7 +275,7 @@ func (a *analyzer) index() {
 				if fn == nil {
 					continue
 				}
-				n := &node{key: fn.FullName(), pkg: p, body: fd.Body}
+				n := &node{key: fn.FullName(), pkg: p, body: fd.Body, ftype: fd.Type, mut: map[mutFact]bool{}}
 				n.file, n.line0 = a.rel(fd.Pos())
 				_, n.line1 = a.rel(fd.End())
 				a.byFunc[fn] = n
@@ -271,7 +301,7 @@ func (a *analyzer) index() {
 					if fl, ok := x.(*ast.FuncLit); ok {
 						cnt++
 						_, line := a.rel(fl.Pos())
-						ln := &node{key: fmt.Sprintf("%s$lit%d@%d", n.key, cnt, line), pkg: p, body: fl.Body}
+						ln := &node{key: fmt.Sprintf("%s$lit%d@%d", n.key, cnt, line), pkg: p, body: fl.Body, ftype: fl.Type, mut: map[mutFact]bool{}}
 						ln.file, ln.line0 = a.rel(fl.Pos())
 						_, ln.line1 = a.rel(fl.End())
 						a.byLit[fl] = ln
@@ -585,10 +615,49 @@ func (a *analyzer) fieldKey(p *packages.Package, se *ast.SelectorExpr, anyOwner 
 // ---------------------------------------------------------------- per-function analysis
 
 type walker struct {
-	a      *analyzer
-	n      *node
-	p      *packages.Package
-	defers []*deferItem
+	a           *analyzer
+	n           *node
+	p           *packages.Package
+	defers      []*deferItem
+	params      map[types.Object]int
+	fresh       freshSet // access paths known to hold a private (deep) copy at this point
+	pendingArgs []argFact
+	local       map[string]argFact // what a local variable was last assigned from (parameter-rooted, shared)
+}
+
+type freshSet map[string]bool
+
+func (f freshSet) clone() freshSet {
+	o := freshSet{}
+	for k := range f {
+		o[k] = true
+	}
+	return o
+}
+
+// meet: fresh before the branching construct and still fresh at the end of every branch
+func meet(f0 freshSet, rs ...freshSet) freshSet {
+	o := freshSet{}
+	for k := range f0 {
+		ok := true
+		for _, r := range rs {
+			if !r[k] {
+				ok = false
+			}
+		}
+		if ok {
+			o[k] = true
+		}
+	}
+	return o
+}
+
+func (f freshSet) drop(path string) {
+	for k := range f {
+		if k == path || strings.HasPrefix(k, path+".") {
+			delete(f, k)
+		}
+	}
 }
 
 // A deferred call runs when the function returns, after every defer registered later (LIFO).
@@ -599,6 +668,7 @@ type deferItem struct {
 	lock    string
 	ex      bool
 	targets []*node
+	args    []argFact
 	pos     token.Pos
 	regL    lockset
 	exitL   lockset
@@ -620,7 +690,21 @@ func (a *analyzer) analyse(n *node) {
 		return
 	}
 	n.done = true
-	w := &walker{a: a, n: n, p: n.pkg}
+	w := &walker{a: a, n: n, p: n.pkg, params: map[types.Object]int{}, fresh: freshSet{}, local: map[string]argFact{}}
+	if n.ftype != nil && n.ftype.Params != nil {
+		i := 0
+		for _, f := range n.ftype.Params.List {
+			if len(f.Names) == 0 {
+				i++
+			}
+			for _, nm := range f.Names {
+				if o := n.pkg.TypesInfo.Defs[nm]; o != nil {
+					w.params[o] = i
+				}
+				i++
+			}
+		}
+	}
 	L := lockset{}
 	w.block(n.body.List, &L)
 	w.noteExit(L)
@@ -635,6 +719,7 @@ func (a *analyzer) analyse(n *node) {
 				h, _ = h.remove(u.lock, u.ex)
 			}
 		}
+		w.pendingArgs = d.args
 		w.emitCall(d.targets, false, d.pos, h)
 	}
 }
@@ -645,6 +730,7 @@ func (w *walker) emitAccess(field string, write bool, pos token.Pos, L lockset) 
 
 func (w *walker) emitCall(ts []*node, isGo bool, pos token.Pos, L lockset) {
 	if len(ts) == 0 {
+		w.pendingArgs = nil
 		return
 	}
 	// a callee that returns an owner field directly hands out an alias: whatever the caller does
@@ -656,7 +742,8 @@ func (w *walker) emitCall(ts []*node, isGo bool, pos token.Pos, L lockset) {
 			}
 		}
 	}
-	w.n.events = append(w.n.events, event{kind: evCall, targets: ts, isGo: isGo, pos: pos, held: L.canon()})
+	w.n.events = append(w.n.events, event{kind: evCall, targets: ts, isGo: isGo, pos: pos, held: L.canon(), args: w.pendingArgs})
+	w.pendingArgs = nil
 }
 
 func terminating(s ast.Stmt) bool {
@@ -701,15 +788,38 @@ func (w *walker) stmt(s ast.Stmt, L *lockset) {
 		}
 		for _, l := range v.Lhs {
 			w.lhs(l, L)
+			w.objMut(l, L, false)
+		}
+		for i, l := range v.Lhs {
+			if len(v.Lhs) == len(v.Rhs) {
+				w.assign(l, v.Rhs[i], -1)
+			} else if len(v.Rhs) == 1 {
+				w.assign(l, v.Rhs[0], i)
+			} else {
+				w.setFresh(l, false)
+			}
 		}
 	case *ast.IncDecStmt:
 		w.lhs(v.X, L)
+		w.objMut(v.X, L, false)
 	case *ast.DeclStmt:
 		if gd, ok := v.Decl.(*ast.GenDecl); ok {
 			for _, sp := range gd.Specs {
 				if vs, ok := sp.(*ast.ValueSpec); ok {
 					for _, e := range vs.Values {
 						w.expr(e, L, false)
+					}
+					for i, nm := range vs.Names {
+						switch {
+						case len(vs.Values) == 0:
+							w.fresh[nm.Name] = true // zero value: nothing shared yet
+						case len(vs.Values) == len(vs.Names):
+							w.assign(nm, vs.Values[i], -1)
+						case len(vs.Values) == 1:
+							w.assign(nm, vs.Values[0], i)
+						default:
+							w.setFresh(nm, false)
+						}
 					}
 				}
 			}
@@ -718,6 +828,7 @@ func (w *walker) stmt(s ast.Stmt, L *lockset) {
 		for _, e := range v.Results {
 			w.expr(e, L, false)
 		}
+		w.noteReturn(v)
 		w.noteExit(*L)
 	case *ast.SendStmt:
 		w.expr(v.Chan, L, false)
@@ -732,12 +843,23 @@ func (w *walker) stmt(s ast.Stmt, L *lockset) {
 		w.stmt(v.Init, L)
 		w.expr(v.Cond, L, false)
 		la := L.clone()
+		f0 := w.fresh.clone()
 		ta := w.block(v.Body.List, &la)
+		fa := w.fresh
+		w.fresh = f0.clone()
 		lb := L.clone()
 		tb := false
 		if v.Else != nil {
 			w.stmt(v.Else, &lb)
 			tb = terminating(v.Else)
+		}
+		switch {
+		case ta && !tb:
+			w.fresh = meet(f0, w.fresh)
+		case tb && !ta:
+			w.fresh = meet(f0, fa)
+		default:
+			w.fresh = meet(f0, fa, w.fresh)
 		}
 		switch {
 		case ta && tb:
@@ -776,21 +898,42 @@ func (w *walker) stmt(s ast.Stmt, L *lockset) {
 			w.expr(v.Cond, L, false)
 		}
 		lb := L.clone()
+		f0 := w.fresh.clone()
 		w.block(v.Body.List, &lb)
 		w.stmt(v.Post, &lb)
+		w.fresh = meet(f0, w.fresh)
 		*L = intersect(*L, lb)
 	case *ast.RangeStmt:
 		w.expr(v.X, L, false)
 		if v.Tok == token.ASSIGN {
 			if v.Key != nil {
 				w.lhs(v.Key, L)
+				w.objMut(v.Key, L, false)
 			}
 			if v.Value != nil {
 				w.lhs(v.Value, L)
+				w.objMut(v.Value, L, false)
+			}
+		}
+		// the iteration variables alias the elements of what is ranged over
+		if v.Key != nil {
+			w.setFresh(v.Key, false)
+		}
+		if v.Value != nil {
+			w.setFresh(v.Value, false)
+			if id, ok := v.Value.(*ast.Ident); ok {
+				if w.isFreshSource(v.X) {
+					w.fresh[id.Name] = true
+				} else {
+					k, pi := w.classify(w.chainOf(v.X))
+					w.local[id.Name] = argFact{kind: k, param: pi}
+				}
 			}
 		}
 		lb := L.clone()
+		f0 := w.fresh.clone()
 		w.block(v.Body.List, &lb)
+		w.fresh = meet(f0, w.fresh)
 		*L = intersect(*L, lb)
 	case *ast.SwitchStmt:
 		w.stmt(v.Init, L)
@@ -815,8 +958,12 @@ func (w *walker) clauses(body *ast.BlockStmt, L *lockset) {
 	hasDefault := false
 	first := true
 	var acc lockset
+	f0 := w.fresh.clone()
+	var frs []freshSet
+	defer func() { w.fresh = meet(f0, frs...) }()
 	for _, c := range body.List {
 		lc := L.clone()
+		w.fresh = f0.clone()
 		var list []ast.Stmt
 		switch cc := c.(type) {
 		case *ast.CaseClause:
@@ -834,7 +981,9 @@ func (w *walker) clauses(body *ast.BlockStmt, L *lockset) {
 			w.stmt(cc.Comm, &lc)
 			list = cc.Body
 		}
-		if term := w.block(list, &lc); term {
+		term := w.block(list, &lc)
+		frs = append(frs, w.fresh)
+		if term {
 			continue
 		}
 		if first {
@@ -888,7 +1037,7 @@ func (w *walker) goOrDefer(call *ast.CallExpr, L *lockset, isGo bool) {
 		w.emitCall(ts, true, call.Pos(), lockset{})
 	} else if len(ts) > 0 {
 		// the arguments were evaluated here; the call itself runs at function exit (see analyse)
-		w.defers = append(w.defers, &deferItem{targets: ts, pos: call.Pos(), regL: L.clone()})
+		w.defers = append(w.defers, &deferItem{targets: ts, pos: call.Pos(), regL: L.clone(), args: w.argFacts(call)})
 	}
 }
 
@@ -989,7 +1138,7 @@ func (w *walker) expr(e ast.Expr, L *lockset, _ bool) {
 		}
 	case *ast.BasicLit:
 	case *ast.FuncLit:
-		if n := w.a.byLit[v]; n != nil {
+		if n := w.a.byLit[v]; n != nil && !w.a.entryLit[n] {
 			w.emitCall([]*node{n}, false, v.Pos(), *L) // analysed where it is written
 		}
 	case *ast.CompositeLit:
@@ -1022,6 +1171,9 @@ func (w *walker) expr(e ast.Expr, L *lockset, _ bool) {
 			if f := w.a.fieldKey(w.p, v, false); f != "" {
 				w.emitAccess(f, false, v.Pos(), *L)
 			}
+			if k := w.a.objKey(w.p, v); k != "" {
+				w.emitAccess(k, false, v.Pos(), *L)
+			}
 		case types.MethodVal, types.MethodExpr:
 			// method value mentioned outside call position
 			w.emitCall(w.a.callTargets(w.p, v), false, v.Pos(), *L)
@@ -1040,6 +1192,10 @@ func (w *walker) expr(e ast.Expr, L *lockset, _ bool) {
 		w.expr(v.X, L, false)
 	case *ast.StarExpr:
 		w.expr(v.X, L, false)
+		if nt := apiNamed(w.p.TypesInfo.TypeOf(v)); nt != nil {
+			w.a.reach(nt)
+			w.emitAccess("object*:"+typeKey(nt), false, v.Pos(), *L) // copies the whole object
+		}
 	case *ast.UnaryExpr:
 		if v.Op == token.AND {
 			// address taken: whoever gets the pointer may write
@@ -1097,6 +1253,7 @@ func (w *walker) call(c *ast.CallExpr, L *lockset) {
 			case "delete", "clear":
 				if len(c.Args) > 0 {
 					w.lhs(c.Args[0], L)
+					w.objMut(c.Args[0], L, true)
 					for _, a := range c.Args[1:] {
 						w.expr(a, L, false)
 					}
@@ -1112,6 +1269,8 @@ func (w *walker) call(c *ast.CallExpr, L *lockset) {
 	for _, a := range c.Args {
 		w.expr(a, L, false)
 	}
+	w.wholeReads(c, L)
+	w.pendingArgs = w.argFacts(c)
 	switch f := c.Fun.(type) {
 	case *ast.SelectorExpr:
 		sel := w.p.TypesInfo.Selections[f]
@@ -1153,6 +1312,590 @@ func (w *walker) call(c *ast.CallExpr, L *lockset) {
 	}
 }
 
+// ---------------------------------------------------------------- shared API objects
+//
+// Objects of the Kubernetes API types (k8s.io/api, apimachinery meta, pkg/apis/configuration ...) that the
+// controller holds are the informer stores' own objects: Configuration.ingresses & co. keep the pointers the
+// informers delivered, the *Ex structs handed to the generator point at them again.  Other goroutines read
+// them (informer handlers under Configuration.lock, the leader callbacks, the worker).  The sound rule is
+// "nobody writes into an API object that is not its own fresh copy": a write (assignment, ++, delete, clear,
+// element store, or a call that writes through a parameter) whose target is reached through a field of an
+// API-typed value counts as a write of the location "object:<type>.<field>", unless the path it goes through
+// was assigned a fresh value (DeepCopy(), a literal, new, make, a zero-valued local) earlier in the same
+// function.  Every field read of an API-typed value is a read of that location; DeepCopy(), *x and passing
+// an API object to a function outside the loaded packages read all of it.  Instances are conflated per type.
+
+func isAPIPkg(path string) bool {
+	return strings.HasPrefix(path, "k8s.io/api/") || strings.HasPrefix(path, "k8s.io/apimachinery/pkg/apis/") ||
+		strings.HasPrefix(path, modPath+"pkg/apis/")
+}
+
+func apiNamed(t types.Type) *types.Named {
+	if t == nil {
+		return nil
+	}
+	if pt, ok := t.Underlying().(*types.Pointer); ok {
+		t = pt.Elem()
+	}
+	nt, ok := t.(*types.Named)
+	if !ok || nt.Obj().Pkg() == nil || !isAPIPkg(nt.Obj().Pkg().Path()) {
+		return nil
+	}
+	if _, ok := nt.Underlying().(*types.Struct); !ok {
+		return nil
+	}
+	return nt
+}
+
+func typeKey(nt *types.Named) string {
+	parts := strings.Split(nt.Obj().Pkg().Path(), "/")
+	if len(parts) > 2 {
+		parts = parts[len(parts)-2:]
+	}
+	return strings.Join(parts, "/") + "." + nt.Obj().Name()
+}
+
+func pointerLike(t types.Type) bool {
+	if t == nil {
+		return true
+	}
+	switch t.Underlying().(type) {
+	case *types.Pointer, *types.Map, *types.Slice, *types.Interface, *types.Chan, *types.Signature:
+		return true
+	}
+	return false
+}
+
+// objKey: "object:<declaring API struct>.<field>" when se selects a field of an API-typed value
+func (a *analyzer) objKey(p *packages.Package, se *ast.SelectorExpr) string {
+	sel := p.TypesInfo.Selections[se]
+	if sel == nil || sel.Kind() != types.FieldVal {
+		return ""
+	}
+	if apiNamed(sel.Recv()) == nil {
+		return ""
+	}
+	fv, _ := sel.Obj().(*types.Var)
+	if fv == nil {
+		return ""
+	}
+	t := sel.Recv()
+	idx := sel.Index()
+	var owner *types.Named
+	for k := 0; k < len(idx); k++ {
+		if pt, ok := t.Underlying().(*types.Pointer); ok {
+			t = pt.Elem()
+		}
+		st, ok := t.Underlying().(*types.Struct)
+		if !ok {
+			return ""
+		}
+		if k == len(idx)-1 {
+			owner, _ = t.(*types.Named)
+			break
+		}
+		t = st.Field(idx[k]).Type()
+	}
+	if owner == nil || owner.Obj().Pkg() == nil || !isAPIPkg(owner.Obj().Pkg().Path()) {
+		return ""
+	}
+	k := "object:" + typeKey(owner) + "." + fv.Name()
+	if _, ok := a.fieldKinds[k]; !ok {
+		switch fv.Type().Underlying().(type) {
+		case *types.Map:
+			a.fieldKinds[k] = "map"
+		case *types.Slice:
+			a.fieldKinds[k] = "slice"
+		case *types.Pointer:
+			a.fieldKinds[k] = "pointer"
+		default:
+			a.fieldKinds[k] = "other"
+		}
+	}
+	return k
+}
+
+// reach: the API struct types reachable from nt through fields, pointers, slices, maps (incl. nt)
+func (a *analyzer) reach(nt *types.Named) map[string]bool {
+	k := typeKey(nt)
+	if r, ok := a.reachMemo[k]; ok {
+		return r
+	}
+	out := map[string]bool{}
+	a.reachMemo[k] = out
+	var visit func(t types.Type, depth int)
+	seen := map[types.Type]bool{}
+	visit = func(t types.Type, depth int) {
+		if t == nil || depth > 12 || seen[t] {
+			return
+		}
+		seen[t] = true
+		switch u := t.(type) {
+		case *types.Pointer:
+			visit(u.Elem(), depth+1)
+		case *types.Slice:
+			visit(u.Elem(), depth+1)
+		case *types.Array:
+			visit(u.Elem(), depth+1)
+		case *types.Map:
+			visit(u.Key(), depth+1)
+			visit(u.Elem(), depth+1)
+		case *types.Named:
+			if st, ok := u.Underlying().(*types.Struct); ok {
+				if u.Obj().Pkg() != nil && isAPIPkg(u.Obj().Pkg().Path()) {
+					out[typeKey(u)] = true
+				}
+				for i := 0; i < st.NumFields(); i++ {
+					visit(st.Field(i).Type(), depth+1)
+				}
+			} else {
+				visit(u.Underlying(), depth+1)
+			}
+		case *types.Struct:
+			for i := 0; i < u.NumFields(); i++ {
+				visit(u.Field(i).Type(), depth+1)
+			}
+		}
+	}
+	visit(nt, 0)
+	return out
+}
+
+// reachKey: reach() by type key (types seen during the analysis are memoised as they are met)
+func (a *analyzer) reachKey(tk string) map[string]bool {
+	if r, ok := a.reachMemo[tk]; ok {
+		return r
+	}
+	return map[string]bool{}
+}
+
+// chain: how an expression reaches the memory it denotes
+type chain struct {
+	root     ast.Expr
+	rootObj  types.Object
+	prefixes []string // textual access paths from the expression down to its root
+	key      string   // object location of the API field selected closest to the root
+	indirect bool     // passes through a pointer, map or slice (so the memory may be shared)
+}
+
+func (w *walker) chainOf(e ast.Expr) chain {
+	var c chain
+	info := w.p.TypesInfo
+	cur := e
+	for {
+		switch v := cur.(type) {
+		case *ast.ParenExpr:
+			cur = v.X
+		case *ast.StarExpr:
+			c.indirect = true
+			cur = v.X
+		case *ast.UnaryExpr:
+			if v.Op != token.AND {
+				c.root = cur
+				return c
+			}
+			cur = v.X
+		case *ast.SliceExpr:
+			c.indirect = true
+			cur = v.X
+		case *ast.TypeAssertExpr:
+			cur = v.X
+		case *ast.IndexExpr:
+			if t := info.TypeOf(v.X); t != nil {
+				switch t.Underlying().(type) {
+				case *types.Map, *types.Slice, *types.Pointer:
+					c.indirect = true
+				}
+			}
+			cur = v.X
+		case *ast.SelectorExpr:
+			sel := info.Selections[v]
+			if sel == nil || sel.Kind() != types.FieldVal {
+				c.root = cur
+				return c
+			}
+			if t := info.TypeOf(v.X); t != nil {
+				if _, ok := t.Underlying().(*types.Pointer); ok {
+					c.indirect = true
+				}
+			}
+			if k := w.a.objKey(w.p, v); k != "" {
+				c.key = k
+			}
+			c.prefixes = append(c.prefixes, types.ExprString(v))
+			cur = v.X
+		case *ast.Ident:
+			c.root = v
+			c.rootObj = info.Uses[v]
+			if c.rootObj == nil {
+				c.rootObj = info.Defs[v]
+			}
+			c.prefixes = append(c.prefixes, v.Name)
+			return c
+		default:
+			c.root = cur
+			return c
+		}
+	}
+}
+
+func isDeepCopyCall(e ast.Expr) bool {
+	ce, ok := e.(*ast.CallExpr)
+	if !ok {
+		return false
+	}
+	se, ok := ce.Fun.(*ast.SelectorExpr)
+	return ok && se.Sel.Name == "DeepCopy"
+}
+
+func (w *walker) isFreshSource(e ast.Expr) bool {
+	switch v := e.(type) {
+	case *ast.ParenExpr:
+		return w.isFreshSource(v.X)
+	case *ast.CompositeLit, *ast.BasicLit, *ast.FuncLit:
+		return true
+	case *ast.UnaryExpr:
+		if v.Op == token.AND {
+			return w.isFreshSource(v.X)
+		}
+		return true
+	case *ast.BinaryExpr:
+		return true
+	case *ast.CallExpr:
+		if isDeepCopyCall(v) {
+			return true
+		}
+		if id, ok := v.Fun.(*ast.Ident); ok {
+			if _, isB := w.p.TypesInfo.Uses[id].(*types.Builtin); isB {
+				return id.Name == "new" || id.Name == "make" || id.Name == "len" || id.Name == "cap"
+			}
+		}
+		return w.callFresh(v, -1)
+	case *ast.TypeAssertExpr:
+		return w.isFreshSource(v.X)
+	case *ast.Ident:
+		if v.Name == "nil" || v.Name == "true" || v.Name == "false" {
+			return true
+		}
+		return w.fresh[v.Name]
+	case *ast.SelectorExpr:
+		c := w.chainOf(v)
+		for _, p := range c.prefixes {
+			if w.fresh[p] {
+				return true
+			}
+		}
+		// a plain value (string, int, bool) copied out of anything is private
+		t := w.p.TypesInfo.TypeOf(v)
+		return !pointerLike(t) && apiNamed(t) == nil && !isStructWithRefs(t)
+	}
+	return false
+}
+
+// callFresh: does call e hand out a private object as its result idx (-1: the only one)?
+// DeepCopy and the allocation builtins do; a loaded function does when every return of it does (previous
+// pass); code outside the loaded packages does (API clients deserialise) except the informer caches and
+// listers of client-go, which hand out the shared object itself.
+func (w *walker) callFresh(e *ast.CallExpr, idx int) bool {
+	if isDeepCopyCall(e) {
+		return true
+	}
+	t := w.p.TypesInfo.TypeOf(e)
+	if tup, ok := t.(*types.Tuple); ok && idx >= 0 && idx < tup.Len() {
+		t = tup.At(idx).Type()
+	}
+	if !pointerLike(t) && apiNamed(t) == nil && !isStructWithRefs(t) {
+		return true
+	}
+	if idx < 0 {
+		idx = 0
+	}
+	if ts := w.a.callTargets(w.p, e.Fun); len(ts) > 0 {
+		for _, tn := range ts {
+			rf := w.a.retFresh[tn]
+			if idx >= len(rf) || !rf[idx] {
+				return false
+			}
+		}
+		return true
+	}
+	var fn *types.Func
+	switch f := e.Fun.(type) {
+	case *ast.Ident:
+		fn, _ = w.p.TypesInfo.Uses[f].(*types.Func)
+	case *ast.SelectorExpr:
+		fn, _ = w.p.TypesInfo.Uses[f.Sel].(*types.Func)
+	}
+	if fn == nil || fn.Pkg() == nil {
+		return false // a call through a function value
+	}
+	pp := fn.Pkg().Path()
+	if strings.HasPrefix(pp, modPath+"pkg/client/clientset") {
+		return true // generated API clients
+	}
+	if strings.HasPrefix(pp, "k8s.io/client-go/tools/cache") || strings.Contains(pp, "/listers/") ||
+		strings.Contains(pp, "/informers/") || strings.HasPrefix(pp, modPath) {
+		return false
+	}
+	return true
+}
+
+// assign: lhs is given the value of rhs (result idx of it when rhs is a multi-valued call)
+func (w *walker) assign(lhs, rhs ast.Expr, idx int) {
+	fresh := false
+	if ce, ok := rhs.(*ast.CallExpr); ok && idx >= 0 {
+		fresh = w.callFresh(ce, idx)
+	} else if idx < 0 {
+		fresh = w.isFreshSource(rhs)
+	}
+	var lk *argFact
+	if !fresh && idx < 0 {
+		k, pi := w.classify(w.chainOf(rhs))
+		lk = &argFact{kind: k, param: pi}
+	}
+	w.setFresh(lhs, fresh)
+	if id, ok := lhs.(*ast.Ident); ok && id.Name != "_" {
+		delete(w.local, id.Name)
+		if lk != nil {
+			w.local[id.Name] = *lk
+		}
+	}
+}
+
+// noteReturn: which results of this function are private copies at this return
+func (w *walker) noteReturn(r *ast.ReturnStmt) {
+	if w.n.ftype == nil || w.n.ftype.Results == nil {
+		return
+	}
+	var names []*ast.Ident
+	nres := 0
+	for _, f := range w.n.ftype.Results.List {
+		if len(f.Names) == 0 {
+			nres++
+			names = append(names, nil)
+		}
+		for _, nm := range f.Names {
+			nres++
+			names = append(names, nm)
+		}
+	}
+	cur := make([]bool, nres)
+	switch {
+	case len(r.Results) == 0:
+		for i, nm := range names {
+			cur[i] = nm != nil && w.fresh[nm.Name]
+		}
+	case len(r.Results) == nres:
+		for i, e := range r.Results {
+			cur[i] = w.isFreshSource(e)
+		}
+	case len(r.Results) == 1:
+		if ce, ok := r.Results[0].(*ast.CallExpr); ok {
+			for i := range cur {
+				cur[i] = w.callFresh(ce, i)
+			}
+		}
+	}
+	if !w.n.hasRet {
+		w.n.retFresh, w.n.hasRet = cur, true
+		return
+	}
+	for i := range cur {
+		w.n.retFresh[i] = w.n.retFresh[i] && cur[i]
+	}
+}
+
+func isStructWithRefs(t types.Type) bool {
+	if t == nil {
+		return true
+	}
+	_, ok := t.Underlying().(*types.Struct)
+	return ok
+}
+
+func (w *walker) setFresh(lhs ast.Expr, fresh bool) {
+	switch lhs.(type) {
+	case *ast.Ident, *ast.SelectorExpr:
+	default:
+		return
+	}
+	path := types.ExprString(lhs)
+	if path == "_" {
+		return
+	}
+	w.fresh.drop(path)
+	if fresh {
+		w.fresh[path] = true
+	}
+}
+
+// classify a chain: is the memory behind it private to this function, does it come in through a parameter
+// (then the caller decides), or is it shared
+func (w *walker) classify(c chain) (int, int) {
+	for _, p := range c.prefixes {
+		if w.fresh[p] {
+			return argFresh, 0
+		}
+	}
+	switch r := c.root.(type) {
+	case *ast.CallExpr:
+		if w.isFreshSource(r) {
+			return argFresh, 0
+		}
+		return argNonFresh, 0
+	case *ast.CompositeLit:
+		return argFresh, 0
+	case *ast.Ident:
+		if c.rootObj != nil {
+			if i, ok := w.params[c.rootObj]; ok {
+				t := c.rootObj.Type()
+				if apiNamed(t) != nil {
+					return argParam, i
+				}
+				switch t.Underlying().(type) {
+				case *types.Map, *types.Slice:
+					if len(c.prefixes) == 1 { // the parameter itself, not something reached through it
+						return argParam, i
+					}
+				}
+				return argNonFresh, 0
+			}
+		}
+		if lk, ok := w.local[r.Name]; ok && (lk.kind == argParam || lk.kind == argFresh) {
+			return lk.kind, lk.param
+		}
+		return argNonFresh, 0
+	}
+	return argNonFresh, 0
+}
+
+// objMut: expression e is written (assigned, incremented, deleted from)
+func (w *walker) objMut(e ast.Expr, L *lockset, container bool) {
+	c := w.chainOf(e)
+	if container {
+		c.indirect = true // delete(m, k) / clear(m) write the map m denotes
+	}
+	if !c.indirect {
+		return // a local variable or a field of a local struct value
+	}
+	kind, pi := w.classify(c)
+	switch kind {
+	case argFresh:
+	case argParam:
+		w.n.mut[mutFact{pi, c.key}] = true
+	case argNonFresh:
+		if c.key != "" {
+			w.emitAccess(c.key, true, e.Pos(), *L)
+		}
+	}
+}
+
+func (w *walker) argFacts(call *ast.CallExpr) []argFact {
+	out := make([]argFact, len(call.Args))
+	for i, a := range call.Args {
+		t := w.p.TypesInfo.TypeOf(a)
+		if t == nil || !(pointerLike(t) || apiNamed(t) != nil) {
+			continue
+		}
+		if _, ok := a.(*ast.FuncLit); ok {
+			continue
+		}
+		if w.isFreshSource(a) {
+			out[i] = argFact{kind: argFresh}
+			continue
+		}
+		c := w.chainOf(a)
+		kind, pi := w.classify(c)
+		out[i] = argFact{kind: kind, param: pi, key: c.key}
+	}
+	return out
+}
+
+// wholeReads: DeepCopy() and handing an API object to code outside the loaded packages read all of it
+func (w *walker) wholeReads(call *ast.CallExpr, L *lockset) {
+	if se, ok := call.Fun.(*ast.SelectorExpr); ok && strings.HasPrefix(se.Sel.Name, "DeepCopy") {
+		if nt := apiNamed(w.p.TypesInfo.TypeOf(se.X)); nt != nil {
+			w.a.reach(nt)
+			w.emitAccess("object*:"+typeKey(nt), false, call.Pos(), *L)
+		}
+	}
+	if len(w.a.callTargets(w.p, call.Fun)) > 0 {
+		return
+	}
+	for _, a := range call.Args {
+		if nt := apiNamed(w.p.TypesInfo.TypeOf(a)); nt != nil {
+			w.a.reach(nt)
+			w.emitAccess("object*:"+typeKey(nt), false, a.Pos(), *L)
+		}
+	}
+}
+
+// summaries: which parameters a function writes through, directly or by passing them on
+func (a *analyzer) summarise() {
+	var all []*node
+	for _, n := range a.byKey {
+		all = append(all, n)
+	}
+	sort.Slice(all, func(i, j int) bool { return all[i].key < all[j].key })
+	// which functions hand out private copies is needed to analyse their callers: iterate
+	base := append([]string(nil), a.unknown...)
+	for pass := 0; pass < 5; pass++ {
+		a.unknown = append([]string{}, base...)
+		for _, n := range all {
+			n.events, n.mut, n.done, n.retFresh, n.hasRet = nil, map[mutFact]bool{}, false, nil, false
+		}
+		for _, n := range all {
+			a.analyse(n)
+		}
+		same := true
+		for _, n := range all {
+			if fmt.Sprint(a.retFresh[n]) != fmt.Sprint(n.retFresh) {
+				same = false
+			}
+			a.retFresh[n] = n.retFresh
+		}
+		if same && pass > 0 {
+			break
+		}
+	}
+	for _, n := range all {
+		a.summary[n] = map[mutFact]bool{}
+		for f := range n.mut {
+			a.summary[n][f] = true
+		}
+	}
+	for changed := true; changed; {
+		changed = false
+		for _, n := range all {
+			for _, ev := range n.events {
+				if ev.kind != evCall || ev.args == nil {
+					continue
+				}
+				for _, t := range ev.targets {
+					for f := range a.summary[t] {
+						if f.param >= len(ev.args) {
+							continue
+						}
+						af := ev.args[f.param]
+						if af.kind != argParam {
+							continue
+						}
+						k := f.key
+						if k == "" {
+							k = af.key
+						}
+						nf := mutFact{af.param, k}
+						if !a.summary[n][nf] {
+							a.summary[n][nf] = true
+							changed = true
+						}
+					}
+				}
+			}
+		}
+	}
+}
+
 // ---------------------------------------------------------------- whole-program pass
 
 type site struct {
@@ -1191,6 +1934,27 @@ func trimKey(k string) string {
 	return strings.ReplaceAll(k, modPath, "")
 }
 
+func (c *collector) record(entry string, multi bool, cond string, n *node, field string, write bool, eff lockset, pos token.Pos, chain []string) {
+	rk := entry + "|" + field + "|" + fmt.Sprint(write) + "|" + eff.key()
+	r := c.rows[rk]
+	if r == nil {
+		r = &rowOut{Entry: entry, Multi: multi, Cond: cond, Field: field, Write: write, Held: eff}
+		c.rows[rk] = r
+		c.order = append(c.order, rk)
+	}
+	f, l := c.a.rel(pos)
+	for _, s := range r.Sites {
+		if s.File == f && s.Line == l {
+			return
+		}
+	}
+	s := site{File: f, Line: l, Func: trimKey(n.key)}
+	if len(r.Sites) == 0 {
+		s.Chain = chain
+	}
+	r.Sites = append(r.Sites, s)
+}
+
 func (c *collector) visit(entry string, multi bool, cond string, n *node, ctx lockset, chain []string) {
 	mk := entry + "|" + n.key + "|" + ctx.key()
 	if c.seen[mk] {
@@ -1203,29 +1967,22 @@ func (c *collector) visit(entry string, multi bool, cond string, n *node, ctx lo
 		eff := append(ctx.clone(), ev.held...).canon()
 		switch ev.kind {
 		case evAccess:
-			rk := entry + "|" + ev.field + "|" + fmt.Sprint(ev.write) + "|" + eff.key()
-			r := c.rows[rk]
-			if r == nil {
-				r = &rowOut{Entry: entry, Multi: multi, Cond: cond, Field: ev.field, Write: ev.write, Held: eff}
-				c.rows[rk] = r
-				c.order = append(c.order, rk)
-			}
-			f, l := c.a.rel(ev.pos)
-			dup := false
-			for _, s := range r.Sites {
-				if s.File == f && s.Line == l {
-					dup = true
-				}
-			}
-			if !dup {
-				s := site{File: f, Line: l, Func: trimKey(n.key)}
-				if len(r.Sites) == 0 {
-					s.Chain = chain
-				}
-				r.Sites = append(r.Sites, s)
-			}
+			c.record(entry, multi, cond, n, ev.field, ev.write, eff, ev.pos, chain)
 		case evCall:
 			for _, t := range ev.targets {
+				// the callee writes through a parameter: here a shared object was passed for it
+				for f := range c.a.summary[t] {
+					if ev.args == nil || f.param >= len(ev.args) || ev.args[f.param].kind != argNonFresh {
+						continue
+					}
+					k := f.key
+					if k == "" {
+						k = ev.args[f.param].key
+					}
+					if strings.HasPrefix(k, "object:") {
+						c.record(entry, multi, cond, n, k, true, eff, ev.pos, append(append([]string(nil), chain...), trimKey(t.key)))
+					}
+				}
 				if ev.isGo {
 					c.visit(entry+"+go", true, cond, t, lockset{}, chain)
 				} else {
@@ -1266,8 +2023,23 @@ func main() {
 	sort.Slice(pkgs, func(i, j int) bool { return pkgs[i].PkgPath < pkgs[j].PkgPath })
 	a := &analyzer{fset: pkgs[0].Fset, pkgs: pkgs, byFunc: map[*types.Func]*node{}, byLit: map[*ast.FuncLit]*node{},
 		byKey: map[string]*node{}, fieldFuncs: map[*types.Var][]*node{}, litsIn: map[string][]*node{},
-		ifaceCache: map[string][]*node{}, goConds: map[string][]string{}, unknown: []string{}, fieldKinds: map[string]string{}}
+		ifaceCache: map[string][]*node{}, goConds: map[string][]string{}, unknown: []string{}, fieldKinds: map[string]string{}, summary: map[*node]map[mutFact]bool{}, retFresh: map[*node][]bool{}, entryLit: map[*node]bool{}, reachMemo: map[string]map[string]bool{}}
 	a.index()
+	for _, e := range entries {
+		for _, k := range e.LitsIn {
+			for _, n := range a.litsIn[k] {
+				a.entryLit[n] = true
+			}
+		}
+		if e.HandlerLits {
+			for _, n := range a.handlerLit {
+				if n != nil && strings.Contains(n.key, "$lit") {
+					a.entryLit[n] = true
+				}
+			}
+		}
+	}
+	a.summarise()
 
 	col := &collector{a: a, rows: map[string]*rowOut{}, seen: map[string]bool{}}
 	type entryOut struct {
@@ -1328,9 +2100,58 @@ func main() {
 		}
 	}
 	condOK := func(c string) bool { return c == "" || !written[strings.TrimSuffix(c, "!=nil")] }
+	// shared API objects: a whole-object read (DeepCopy, *x, handing the object to a library) stands for a
+	// read of every written location inside that type; object locations nobody writes are dropped (they
+	// cannot take part in a conflict and there are thousands of them)
+	writtenObj := map[string]bool{}
+	for _, k := range col.order {
+		if r := col.rows[k]; r.Write && strings.HasPrefix(r.Field, "object:") {
+			writtenObj[r.Field] = true
+		}
+	}
+	ownerOfKey := func(k string) string { // "object:pkg/v1.Type.Field" -> "pkg/v1.Type"
+		k = strings.TrimPrefix(k, "object:")
+		return k[:strings.LastIndex(k, ".")]
+	}
+	var expanded []string
+	for _, k := range col.order {
+		r := col.rows[k]
+		if !strings.HasPrefix(r.Field, "object*:") {
+			continue
+		}
+		tk := strings.TrimPrefix(r.Field, "object*:")
+		for wk := range writtenObj {
+			o := ownerOfKey(wk)
+			if o == tk || a.reachKey(tk)[o] {
+				rk := r.Entry + "|" + wk + "|false|" + lockset(r.Held).key()
+				nr := col.rows[rk]
+				if nr == nil {
+					nr = &rowOut{Entry: r.Entry, Multi: r.Multi, Cond: r.Cond, Field: wk, Write: false, Held: r.Held}
+					col.rows[rk] = nr
+					expanded = append(expanded, rk)
+				}
+				for _, st := range r.Sites {
+					dup := false
+					for _, s2 := range nr.Sites {
+						if s2.File == st.File && s2.Line == st.Line {
+							dup = true
+						}
+					}
+					if !dup && len(nr.Sites) < 12 {
+						nr.Sites = append(nr.Sites, st)
+					}
+				}
+			}
+		}
+	}
+	sort.Strings(expanded)
+	col.order = append(col.order, expanded...)
 	var rows []*rowOut
 	for _, k := range col.order {
 		r := col.rows[k]
+		if strings.HasPrefix(r.Field, "object*:") || (strings.HasPrefix(r.Field, "object:") && !writtenObj[r.Field]) {
+			continue
+		}
 		if !condOK(r.Cond) {
 			r.Cond = ""
 		}
